@@ -75,6 +75,30 @@ def fail_classes(e: Engine, ctx: Ctx, expr):
         gv = getattr(ctx.func.module, 'globals', {}).get(expr.id)
         if isinstance(gv, ast.Tuple):
             expr = gv
+    # a class-level name for a tuple of classes: self.X / cls.X / Class.X
+    if isinstance(expr, ast.Attribute) and isinstance(expr.value, ast.Name) \
+            and ctx.func.cls is not None:
+        owner = None
+        if expr.value.id in ('self', 'cls'):
+            owner = ctx.self_cls or ctx.func.cls.qname
+        else:
+            owner = e.p.resolve_expr_qname(ctx.func.module, expr.value)
+        for k in (e.p.mro(owner) if owner else []):
+            c = e.p.classes.get(k)
+            if c is None:
+                continue
+            hit = [st.value for st in c.node.body
+                   if isinstance(st, ast.Assign) and any(
+                       isinstance(t, ast.Name) and t.id == expr.attr
+                       for t in st.targets)]
+            if hit:
+                written = any(
+                    isinstance(t, ast.Attribute) and t.attr == expr.attr and
+                    isinstance(t.ctx, ast.Store)
+                    for m in c.methods.values() for t in ast.walk(m.node))
+                if isinstance(hit[-1], ast.Tuple) and not written:
+                    expr = hit[-1]
+                break
     names = expr.elts if isinstance(expr, ast.Tuple) else [expr]
     out = set()
     for nm in names:
